@@ -41,10 +41,23 @@ func famStreams(w *World, c *Case, rng *rand.Rand) {
 	for i := 0; i < k; i++ {
 		specs = append(specs, GenRPC(rng, fmt.Sprintf("r%d", i), o))
 	}
+	gated := c.p("gated", 0) == 1
+	if gated {
+		w.Conn.SetGated(true)
+	}
 	for _, s := range specs {
 		w.Env.StartRPC(w.RootCtx, w.Ch, s)
-		if rng.Intn(2) == 0 {
+		if gated {
+			w.driveGate(rng, rng.Intn(15))
+		} else if rng.Intn(2) == 0 {
 			w.Wait()
+		}
+	}
+	if gated {
+		w.driveGate(rng, 20000)
+		w.Conn.SetGated(false)
+		for _, l := range w.Conn.Links() {
+			l.ReleaseAll()
 		}
 	}
 	w.Advance(time.Minute)
@@ -132,7 +145,14 @@ func init() {
 			n = 24000
 		}
 		for i := 0; i < n; i++ {
-			out = append(out, Case{Family: "streams", Seed: rng.Int63(), Cfg: pickCfg(rng)})
+			c := Case{Family: "streams", Seed: rng.Int63(), Cfg: pickCfg(rng)}
+			if i%4 == 3 {
+				// gate-chosen frame interleavings across up to 8 concurrent RPCs (needs an unbounded, non-nested, latency-free carrier)
+				c.Cfg.Dir = []string{"forward", "reverse"}[rng.Intn(2)]
+				c.Cfg.CapFrames, c.Cfg.Latency = 0, 0
+				c.P = map[string]int{"gated": 1, "maxrpcs": 8, "maxsize": 140000, "budget": 1 << 20}
+			}
+			out = append(out, c)
 		}
 		// multi-megabyte messages (up to 8 MiB + 1)
 		nbig := 6
